@@ -1332,6 +1332,15 @@ class StructItem:
         if self.spec.get("profile_debug") is not None:
             txt, h = r4_cfg_resolve(txt, self.spec["profile_debug"])
             hits["R4"] = h
+        for a, b in self.spec.get("text_replace", []):
+            # unit-local, exact-text type-level replacements in a struct declaration (listed and pinned per unit)
+            hits["T:" + a] = txt.count(a)
+            txt = txt.replace(a, b)
+        if self.spec.get("feature_on"):
+            # R4f: `#[cfg(feature = "F")]` on the item resolved for a build with feature F enabled (stated per unit)
+            pat = r'#\[cfg\(feature = "%s"\)\]\s*' % re.escape(self.spec["feature_on"])
+            hits["R4f"] = len(re.findall(pat, txt))
+            txt = re.sub(pat, "", txt)
         hits = {k: v for k, v in hits.items() if v}
         self.rule_hits = hits
         if hits != self.spec.get("rules", {}):
